@@ -711,6 +711,9 @@ func init() {
 	reg("(*sync.RWMutex).Unlock", func(in *Interp, fr *frame, a []Value) Value { in.lockOp(a[0], "Unlock"); return nil })
 	reg("(*sync.RWMutex).RLock", func(in *Interp, fr *frame, a []Value) Value { in.lockOp(a[0], "RLock"); return nil })
 	reg("(*sync.RWMutex).RUnlock", func(in *Interp, fr *frame, a []Value) Value { in.lockOp(a[0], "RUnlock"); return nil })
+	reg("(*sync.RWMutex).TryLock", func(in *Interp, fr *frame, a []Value) Value { return in.tryLockOp(a[0], "TryLock") })
+	reg("(*sync.RWMutex).TryRLock", func(in *Interp, fr *frame, a []Value) Value { return in.tryLockOp(a[0], "TryRLock") })
+	reg("(*sync.Mutex).TryLock", func(in *Interp, fr *frame, a []Value) Value { return in.tryLockOp(a[0], "TryLock") })
 	reg("(*sync.Once).Do", func(in *Interp, fr *frame, a []Value) Value {
 		p := a[0].(*Value)
 		if !in.onces[p] {
@@ -1106,7 +1109,6 @@ func (in *Interp) poolGet(fr *frame, p *Value) Value {
 		st = &poolState{}
 		in.pools[p] = st
 	}
-	in.syncPoint("Pool.Get")
 	n := len(st.items)
 	pick := -1
 	if n > 0 {
@@ -1156,7 +1158,6 @@ func (in *Interp) poolPut(fr *frame, p *Value, x Value) {
 		st = &poolState{}
 		in.pools[p] = st
 	}
-	in.syncPoint("Pool.Put")
 	if itf, ok := x.(Iface); ok && itf.T == nil {
 		return
 	}
